@@ -84,21 +84,24 @@ Proof.
 Qed.
 
 (* hypotheses satisfiable: two aggregators, three backends, callbacks in any order, two flushes *)
+Definition flusher_sample_script : list flabel :=
+  [FSendAll 3; FCallback 1; FSendAll 3; FCallback 0; FProcessDone; FCallback 5; FCallback 2; FCallback 4;
+   FCallback 3; FWaitReturns; FNextFlush; FSendAll 3; FCallback 2].
 Example flusher_sample :
-  exists s, run fstep finit [FSendAll 3; FCallback 1; FSendAll 3; FCallback 0; FProcessDone; FCallback 5;
-                             FCallback 2; FCallback 4; FCallback 3; FWaitReturns; FNextFlush; FSendAll 3;
-                             FCallback 2] = Some s /\ at_most_once s /\ wg s = 2 /\ flushes s = 1%nat.
+  run fstep finit flusher_sample_script = Some (FS FProcessing 2 3 [2%nat] 1) /\
+  at_most_once (FS FProcessing 2 3 [2%nat] 1).
 Proof.
-  eexists. split; [reflexivity|]. cbn. repeat split; try lia.
-  - repeat constructor; cbn; tauto.
-  - intros r [<-|[]]. lia.
+  split; [vm_compute; reflexivity|]. split; cbn [cbs issued].
+  - constructor; [intros []|constructor].
+  - intros r [<-|[]]. repeat constructor.
 Qed.
 
 (* a second callback for one request panics the flusher (negative WaitGroup counter) ... *)
 Example flusher_double_callback_panics :
-  exists s, run fstep finit [FSendAll 1; FProcessDone; FCallback 0; FCallback 0] = Some s /\ fph s = FPanicked.
-Proof. eexists. split; reflexivity. Qed.
+  run fstep finit [FSendAll 1; FProcessDone; FCallback 0; FCallback 0] = Some (FS FPanicked (-1) 1 [0%nat; 0%nat] 0).
+Proof. vm_compute. reflexivity. Qed.
 (* ... also when it arrives after the flush returned *)
 Example flusher_late_callback_panics :
-  exists s, run fstep finit [FSendAll 1; FProcessDone; FCallback 0; FWaitReturns; FCallback 0] = Some s /\ fph s = FPanicked.
-Proof. eexists. split; reflexivity. Qed.
+  run fstep finit [FSendAll 1; FProcessDone; FCallback 0; FWaitReturns; FCallback 0]
+  = Some (FS FPanicked (-1) 1 [0%nat; 0%nat] 0).
+Proof. vm_compute. reflexivity. Qed.
